@@ -19,6 +19,9 @@ WHY = {
     ("dfa::DFA::do_check_ambiguity_best_effort", "dedup_by_key", ""): "identical (literal, description) pairs are one expectation",
     ("dfa::DFA::do_check_ambiguity_best_effort", "skip", ".0 != "): "neighbours in literal order: different literals cannot conflict",
     ("dfa::DFA::do_check_ambiguity_best_effort", "skip", ".1 == "): "same literal, same description (None == None included): no conflict",
+    ("dfa::DFA::do_check_ambiguity_best_effort", "skip", "!is<Inp::Star>"): "only a placeholder transition can make a state ambiguous: literals are compared exactly, commands produce candidates and match nothing by themselves, within-word automata were checked when they were compiled",
+    ("dfa::DFA::do_check_ambiguity_best_effort", "skip", "!is<Inp::Literal>"): "descriptions are attached to literals only: the conflicting-description list is built from the literal transitions of the state",
+    ("regex::Regex::check_subwords", "skip", "!is<RegexInput::Subword>"): "only a within-word expression has a within-word regex to check",
     ("parse::Grammar::get_specializations", "continue^0", ":Some(("): "first pass looks at shell-specific definitions only",
     ("parse::Grammar::get_specializations", "skip", "!= param<Shell>"): "definitions for other shells do not take part (their shell name and right-hand side were validated just before)",
     ("parse::Grammar::get_specializations", "continue^0", ":None"): "second pass looks at plain definitions only",
